@@ -8,7 +8,7 @@ CFG = {
     "theorems": [T + n for n in ["C02_pointOnSegment_spec", "C02_rayIntersects_eq_crossHO", "C02_ring_onEdge_iff",
                                  "C02_closed_walk_even", "C02_bbox_prefilter_sound", "C02_point", "C02_point_no_panic",
                                  "C02_receivers_points", "C02_receivers_multiline", "C02_receivers_polygon", "C02_closed_spelling",
-                                 "C02_tie_pointSubtract", "C02_tie_pointOnSegment", "C02_tie_rayIntersectsSegment",
+                                 "C02_tie_pointSubtract", "C02_tie_pointOnSegment", "C02_tie_rayIntersectsSegment", "C02_tie_Bounds_Empty", "C02_tie_Bounds_Overlaps",
                                  "C02_float_ray_exact_on_grid", "C02_float_onSegment_exact_on_grid", "C02_float_point_exact_on_grid"]],
     "lean_dirs": ["C02"],
     "trusted_base": [
